@@ -35,6 +35,8 @@ type Case struct {
 	// Saver: history before PrepareSnapshot; Between: Update calls applied after prepare and before/while saving.
 	Saver   [][][]byte `json:"saver"`
 	Between [][][]byte `json:"between"`
+	// SyncBeforeSave: the saver's Sync() is called between prepare and save (dragonboat's concurrent save does prepare, Sync, save)
+	SyncBeforeSave bool `json:"sync_before_save"`
 	// Recv: the receiver's own, unrelated history (its own log).
 	Recv     [][][]byte `json:"recv"`
 	RecvSync bool       `json:"recv_sync"` // receiver syncs its own state before the install
@@ -74,6 +76,7 @@ func genCase(t *rapid.T) Case {
 		Recv:      genBatches(t, pool2, "recv", 0, 4),
 		RecvSync:  rapid.Bool().Draw(t, "recvsync"),
 	}
+	c.SyncBeforeSave = rapid.Bool().Draw(t, "syncbeforesave")
 	switch rapid.IntRange(0, 9).Draw(t, "mode") {
 	case 0, 1:
 		c.Interrupt = "stop-save"
@@ -215,6 +218,14 @@ func run(c Case, o *vt.Obs) *vt.Failure {
 	// writes applied after prepare must not leak into the snapshot
 	if err := saver.apply(c.Between); err != nil {
 		return vt.Failf(prop+"/apply-error", 2, "saver (between prepare and save): %v", err)
+	}
+	if c.SyncBeforeSave {
+		if err := saver.r.SM.Sync(); err != nil {
+			return vt.Failf(prop+"/sync-error", 2, "saver Sync between prepare and save: %v", err)
+		}
+		if len(c.Between) > 0 {
+			o.Label("flush-between-prepare-and-save")
+		}
 	}
 	var snap []byte
 	if c.Interrupt == "stop-save" {
